@@ -396,14 +396,24 @@ func (s *state) visitFunction(node *ast.FunctionNode) {
 	switch node.Name {
 	case "isFirst":
 		// TODO: Add compile-time check that this is only called on loop variable.
-		s.js("(", s.scope.loopindex(), " == 0)")
+		s.js("(", s.scope.loopindex(loopVarOf(node)), " == 0)")
 	case "isLast":
-		s.js("(", s.scope.loopindex(), " == ", s.scope.looplimit(), " - 1)")
+		s.js("(", s.scope.loopindex(loopVarOf(node)), " == ", s.scope.looplimit(loopVarOf(node)), " - 1)")
 	case "index":
-		s.js(s.scope.loopindex())
+		s.js(s.scope.loopindex(loopVarOf(node)))
 	default:
 		s.errorf("unimplemented function: %v", node.Name)
 	}
+}
+
+// loopVarOf returns the loop variable that isFirst / isLast / index refer to.
+func loopVarOf(node *ast.FunctionNode) string {
+	if len(node.Args) == 1 {
+		if ref, ok := node.Args[0].(*ast.DataRefNode); ok {
+			return ref.Key
+		}
+	}
+	return ""
 }
 
 func (s *state) visitDataRef(node *ast.DataRefNode) {
